@@ -59,7 +59,9 @@ class UMNDirHandler(DirHandler):
             # If the parent says it's OK, then let's see if it's
             # a link file.  If yes, process it and return false.
             if file[0] == ".":
-                if not self.vfs.isdir(self.selectorbase + "/" + file):
+                # Only regular files are link files (opening a FIFO would
+                # wait for a writer forever).
+                if self.vfs.isfile(self.selectorbase + "/" + file):
                     try:
                         self.linkentries.extend(
                             self.processLinkFile(self.selectorbase + "/" + file)
@@ -100,6 +102,8 @@ class UMNDirHandler(DirHandler):
         capfilename = self.selectorbase + "/.cap/" + file
 
         try:
+            if not self.vfs.isfile(capfilename):
+                raise IOError("no .cap file")
             capinfo = self.processLinkFile(capfilename, fileentry.getselector())
             if len(capinfo) >= 1:  # We handle one and only one entry.
                 if capinfo[0].gettype() == "X" or capinfo[0].gettype() == "-":
